@@ -6,11 +6,13 @@ import (
 	"context"
 	"encoding/json"
 	"fmt"
+	"github.com/olric-data/olric/internal/cluster/partitions"
 	"math/rand"
 	"os"
 	"path/filepath"
 	"runtime"
 	"strconv"
+	"strings"
 	"testing"
 	"time"
 
@@ -93,6 +95,14 @@ func yielder(rng *rand.Rand) func() {
 }
 
 // TestC01 records concurrent Put/PutNX/PutXX/Get/Delete histories on stable clusters.
+// housekeeping: clusters with small storage tables run the real janitor and compaction timers at a short interval
+func housekeeping(tableSize int) time.Duration {
+	if tableSize > 0 {
+		return 25 * time.Millisecond
+	}
+	return 0
+}
+
 func TestC01(t *testing.T) {
 	out := os.Getenv("VERIF_OUT")
 	if out == "" {
@@ -115,7 +125,7 @@ func TestC01(t *testing.T) {
 	ctl := sched.Install(seed)
 	for ci, cfg := range cfgs {
 		c, err := cluster.Start(cluster.Options{Replicas: cfg.Replicas, Partitions: cfg.Partitions, TableSize: cfg.TableSize,
-			ReadRepair: cfg.ReadRepair, Manual: true}, cfg.Members)
+			ReadRepair: cfg.ReadRepair, Manual: true, Housekeeping: housekeeping(cfg.TableSize)}, cfg.Members)
 		if err != nil {
 			t.Fatalf("cluster %v: %v", cfg, err)
 		}
@@ -168,6 +178,28 @@ func TestC01(t *testing.T) {
 				scripts = append(scripts, sc)
 			}
 			rec.Run("c01", scripts, yielder(rng))
+			if cfg.TableSize > 0 {
+				// a quiet point: in every partition an entry as large as a table is written (it opens a new table) and
+				// deleted again, so the newest table of each fragment is empty while older ones hold the live keys; then the
+				// janitor and the compaction trigger get time to run; then every key of the round is read once more
+				done := map[uint64]bool{}
+				for i := 0; i < 400 && len(done) < int(cfg.Partitions); i++ {
+					rk := fmt.Sprintf("roll-%d-%d", round, i)
+					part := partitions.HKey("c01", rk) % uint64(cfg.Partitions)
+					if done[part] {
+						continue
+					}
+					done[part] = true
+					paths[0].Put(context.Background(), "c01", rk, strings.Repeat("r", cfg.TableSize-29-len(rk)-8), PutOpts{})
+					paths[0].Delete(context.Background(), "c01", rk)
+				}
+				time.Sleep(4 * housekeeping(cfg.TableSize))
+				fin := Script{Client: "fin", Path: paths[rng.Intn(len(paths))]}
+				for kk := 0; kk < nkeys; kk++ {
+					fin.Steps = append(fin.Steps, Step{Op: "get", Key: fmt.Sprintf("k%d-%d-%d", ci, round, kk)})
+				}
+				rec.Run("c01", []Script{fin}, nil)
+			}
 			hs := rec.Split()
 			Emit(w, hs, &seq, trace.Ev{"cfg": cfg.String()})
 			for _, h := range hs {
